@@ -53,8 +53,12 @@ def replay(system, hist, upto=None):
 
 def _expand(job):
     factory, arg, K, items = job
-    system = _system(factory, arg)
     out, viols, counts, outcomes = [], [], {}, set()
+    try:
+        system = _system(factory, arg)
+    except common.Violation as v:        # e.g. the (well-formed) language of this system cannot be loaded
+        v.case = v.case or {'system': repr(arg)}
+        return out, [v.to_json()], counts, outcomes
     for hist, devs, expect_key in items:
         ctx = replay(system, hist)
         k0 = system.key(ctx)
@@ -83,9 +87,14 @@ def _expand(job):
 
 def explore(factory, arg, depth, K, result, seed=0, shard=64, label=''):
     """Level-synchronous BFS.  Returns dict key -> (history, devs) of all distinct states."""
-    system = _system(factory, arg)
-    ctx0 = system.fresh()
-    system.invariant(ctx0)
+    try:
+        system = _system(factory, arg)
+        ctx0 = system.fresh()
+        system.invariant(ctx0)
+    except common.Violation as v:
+        v.case = v.case or {'system': repr(arg), 'history': [], 'op': None}
+        result.add_violation(v)
+        return {}
     k0 = system.key(ctx0)
     best = {k0: 0}                  # key -> smallest deviation total it was expanded with
     reps = {k0: ((), 0)}
